@@ -420,14 +420,16 @@ class TextSite(Obligation):
     alphabet = HOSTILE_RANGES
     timeout_ms = 30000
 
-    def __init__(self, site, n):
+    def __init__(self, site, n, alpha=None):
         self.site, self.n = site, n
         self.kernel, self.value_site, _, self.functions = SITES[site]
-        self.name = "text/%s/len=%d" % (site, n)
-        self.bounds = {"site": site, "text_length": n, "alphabet": HOSTILE, "value_site": self.value_site}
+        self.alpha_text = alpha or HOSTILE
+        self.alpha_ranges = ranges_of_pts([ord(c) for c in self.alpha_text])
+        self.name = "text/%s/len=%d%s" % (site, n, "" if alpha is None else "/quotes")
+        self.bounds = {"site": site, "text_length": n, "alphabet": self.alpha_text, "value_site": self.value_site}
 
     def make_inputs(self, e):
-        return {"text": mk_sym_str(self.n, "t", HOSTILE_RANGES)}
+        return {"text": mk_sym_str(self.n, "t", self.alpha_ranges)}
 
     def run_sym(self, inp):
         return call_catching(self.kernel, _I(), inp["text"])
@@ -453,8 +455,11 @@ class TextSite(Obligation):
         return "site %s with text %r: %s" % (self.site, inp["text"], why)
 
 
-def mk(site, n):
-    return TextSite(site, n)
+QUOTES = "\"\\a'"
+
+
+def mk(site, n, alpha=None):
+    return TextSite(site, n, alpha)
 
 
 # ------------------------------------------------------------------ lexer validation against CPython
@@ -492,6 +497,10 @@ def specs(tier):
         top = nmax + (1 if (tier == "thorough" and site in deep) else 0)
         for n in range(minlen, top + 1):
             out.append((MOD, "mk", (site, n)))
+        # runs of quotes / backslashes longer than the general bound (triple quotes, escaped quotes), small alphabet
+        for n in ([3] if tier == "quick" else [4, 5, 6]):
+            if n > top:
+                out.append((MOD, "mk", (site, n, QUOTES)))
     return out
 
 
@@ -524,7 +533,7 @@ def run(tier, rep, only=None):
 
 def replay(path):
     v = json.load(open(path))["violation"]
-    _, site, ln = v["obligation"].split("/")
+    _, site, ln = v["obligation"].split("/")[:3]
     n = int(ln.split("=")[1])
     t = v["inputs"]["text"]
     frags = call_catching(SITES[site][0], _R(), t)
